@@ -88,7 +88,7 @@ PROPS["C04"] = _hist(
     lambda f: f["we"] >= 3 and f["nested"] >= 1,
     ["C04_resolutions", "C04_resolutions_none"],
     ["LRUTrie.follow_lru", "Traph.retrieve_webentity", "Traph.retrieve_prefix", "Traph.add_prefix_to_webentity", "Traph.move_prefix_to_webentity"],
-    Q(640), T(5000),
+    Q(640, ids=66000), T(5000, ids=140000),
 )
 
 PROPS["C05"] = _hist(
@@ -200,7 +200,7 @@ PROPS["C12"] = _hist(
     lambda f: f["auto_groups"] >= 3 and (f["reopens"] >= 1 or f["deletes"] >= 1),
     ["ids_checked", "reopens"],
     ["Traph.__generated_web_entity_id", "LRUTrieHeader.write", "LRUTrieHeader.increment_last_webentity_id", "Traph.__add_prefixes"],
-    Q(800), T(8000),
+    Q(800, ids=66000), T(8000, ids=140000),
 )
 
 def _paging(prop, profile, rule, nontrivial, deciding, anchors, quick, thorough):
